@@ -157,8 +157,11 @@ REQUESTERS = [('owner', 'alice', 'alice'), ('other', 'bob', 'alice'), ('anonymou
 GROUPS = [None, [], ['A'], ['A', 'B'], ['B', 'A'], ['Z'], ['Z', 'A'], ['A', 'Z'], [''], ['', 'A'], ['', 'Z']]
 
 
-def f11_signature(groups):
-    return {'class': 'empty-group-name'} if groups is not None and '' in groups else {'class': 'decision'}
+def f11_signature(P, pn, user, groups, owner, ot, op):
+    """class 'empty-group-name' only when the grant is explained by treating "" as "no group information"."""
+    if groups is not None and '' in groups and granted_spec(P, pn, user, None, owner, ot, op):
+        return {'class': 'empty-group-name'}
+    return {'class': 'decision'}
 
 
 def decision_cases(ctx, eng):
@@ -184,7 +187,7 @@ def decision_cases(ctx, eng):
             # direct oracle: allowed only if granted
             g = granted_spec(P, pn, user, groups, owner, T0, O0)
             if obs and not g:
-                ctx.violation(dict(f11_signature(groups), site='_is_allowed_by_operation_policy'),
+                ctx.violation(dict(f11_signature(P, pn, user, groups, owner, T0, O0), site='_is_allowed_by_operation_policy'),
                               {'policies': plain_policies(P), 'policy_name': pn, 'identity': [user, groups], 'owner': owner,
                                'object_type': T0.name, 'operation': O0.name, 'allowed': True, 'granted_by_property': False,
                                'how': 'KmipEngine._is_allowed_by_operation_policy(policy_name, identity, owner, object_type, operation)'},
@@ -245,6 +248,543 @@ def plain_policies(P):
     return out
 
 
+# ============================================================================ K(b): engine histories
+from kmip.core import objects as cobjects, attributes as cattrs
+from kmip.core.messages import payloads
+
+E = enums
+CUM = E.CryptographicUsageMask
+MASK = (CUM.ENCRYPT, CUM.DECRYPT, CUM.DERIVE_KEY, CUM.WRAP_KEY, CUM.MAC_GENERATE, CUM.SIGN, CUM.VERIFY)
+NEVER = '987654321'                       # an identifier that never exists
+
+# batch item operation of each step kind
+KIND_OP = {'create': OP.CREATE, 'register': OP.REGISTER, 'create_key_pair': OP.CREATE_KEY_PAIR, 'derive': OP.DERIVE_KEY,
+           'locate': OP.LOCATE, 'get': OP.GET, 'get_attributes': OP.GET_ATTRIBUTES, 'get_attribute_list': OP.GET_ATTRIBUTE_LIST,
+           'activate': OP.ACTIVATE, 'revoke': OP.REVOKE, 'destroy': OP.DESTROY, 'encrypt': OP.ENCRYPT, 'decrypt': OP.DECRYPT,
+           'sign': OP.SIGN, 'signature_verify': OP.SIGNATURE_VERIFY, 'mac': OP.MAC, 'modify_attribute': OP.MODIFY_ATTRIBUTE,
+           'delete_attribute': OP.DELETE_ATTRIBUTE, 'set_attribute': OP.SET_ATTRIBUTE}
+ADDR_KINDS = ['get', 'get_attributes', 'get_attribute_list', 'activate', 'revoke', 'destroy', 'encrypt', 'decrypt', 'sign',
+              'signature_verify', 'mac', 'modify_attribute', 'delete_attribute', 'set_attribute']
+V2_SAFE = ['get', 'get_attributes', 'get_attribute_list', 'activate', 'destroy', 'locate', 'set_attribute', 'modify_attribute', 'revoke']
+
+# The policy operation that must be granted for each way of reaching an object.  Written by hand from the
+# property text (see coq/theories/Policy/HandlerSpec.v for the reading); NOT taken from engine.py.
+REQUIRED_OP = {'get': OP.GET, 'get_attributes': OP.GET_ATTRIBUTES, 'get_attribute_list': OP.GET_ATTRIBUTE_LIST,
+               'activate': OP.ACTIVATE, 'revoke': OP.REVOKE, 'destroy': OP.DESTROY,
+               'modify_attribute': OP.MODIFY_ATTRIBUTE, 'delete_attribute': OP.DELETE_ATTRIBUTE, 'set_attribute': OP.SET_ATTRIBUTE,
+               'encrypt': OP.GET, 'decrypt': OP.GET, 'sign': OP.GET, 'signature_verify': OP.GET, 'mac': OP.GET,
+               'wrap-key': OP.GET, 'derive-base': OP.GET, 'locate': OP.LOCATE}
+
+TYPES = [OT.SYMMETRIC_KEY, OT.PUBLIC_KEY, OT.PRIVATE_KEY, OT.CERTIFICATE, OT.SECRET_DATA, OT.OPAQUE_DATA, OT.SPLIT_KEY]
+POLICY_OPS = [OP.GET, OP.GET_ATTRIBUTES, OP.GET_ATTRIBUTE_LIST, OP.ACTIVATE, OP.REVOKE, OP.DESTROY, OP.LOCATE, OP.MODIFY_ATTRIBUTE,
+              OP.SET_ATTRIBUTE, OP.DELETE_ATTRIBUTE, OP.DERIVE_KEY, OP.ENCRYPT, OP.DECRYPT, OP.SIGN, OP.SIGNATURE_VERIFY, OP.MAC]
+POLICY_NAMES = [None, 'default', 'public', 'pa', 'pa', 'pb', 'pb', 'pc', 'pc', 'pd', 'pd', 'ghost']
+USERS = ['alice', 'bob', 'carol']
+GROUP_MENU = [None, None, None, [], ['G1'], ['G1'], ['G2'], ['G1', 'G2'], ['G2', 'G1'], ['GX'], ['GX', 'G2'], ['']]
+
+
+def random_policies(rng):
+    P = copy.deepcopy(core_policy.policies)
+
+    def sec(weights, p_type_missing=0.12, p_op_missing=0.12):
+        s = {}
+        for t in TYPES:
+            if rng.random() < p_type_missing:
+                continue
+            om = {}
+            for op in POLICY_OPS:
+                if rng.random() < p_op_missing:
+                    continue
+                om[op] = rng.choices([PL.ALLOW_ALL, PL.ALLOW_OWNER, PL.DISALLOW_ALL], weights=weights)[0]
+            s[t] = om
+        return s
+    P['pa'] = {'preset': sec((3, 5, 2)), 'groups': {'G1': sec((5, 3, 2)), 'G2': sec((2, 5, 3))}}
+    P['pb'] = {'groups': {'G1': sec((4, 4, 2)), 'G2': sec((3, 3, 4))}}
+    P['pc'] = {'preset': sec((4, 4, 2))}
+    P['pd'] = {'preset': sec((6, 3, 1)), 'groups': {'G2': sec((1, 4, 5), 0.3, 0.3)}}
+    if rng.random() < 0.3:
+        P['pd']['groups'][''] = sec((1, 1, 8))
+    return P
+
+
+def policies_from_plain(plain):
+    out = {}
+    for n, b in plain.items():
+        o = {}
+        for key in ('preset',):
+            if key in b:
+                o[key] = {OT[t]: {OP[op]: PL[p] for op, p in ops.items()} for t, ops in b[key].items()}
+        if 'groups' in b:
+            o['groups'] = {g: {OT[t]: {OP[op]: PL[p] for op, p in ops.items()} for t, ops in s.items()} for g, s in b['groups'].items()}
+        out[n] = o
+    return out
+
+
+# ---------------------------------------------------------------------------- request construction
+def pol_attr(pol):
+    return [kdrv.attr(kdrv.AT.OPERATION_POLICY_NAME, pol)] if pol is not None else []
+
+
+def build_item(it, version):
+    """step item descriptor (plain dict) -> (Operation, payload)"""
+    k = it['k']
+    uid = it.get('uid')
+    v2 = version >= (2, 0)
+    if k == 'create':
+        return kdrv.create(mask=MASK, extra=pol_attr(it.get('pol')))
+    if k == 'register':
+        t = OT[it['type']]
+        attrs = pol_attr(it.get('pol'))
+        if t != OT.OPAQUE_DATA:
+            attrs.append(kdrv.attr(kdrv.AT.CRYPTOGRAPHIC_USAGE_MASK, list(MASK)))
+        return kdrv.register(t, attrs=attrs)
+    if k == 'create_key_pair':
+        return kdrv.create_key_pair(common=[kdrv.attr(kdrv.AT.CRYPTOGRAPHIC_ALGORITHM, E.CryptographicAlgorithm.RSA),
+                                            kdrv.attr(kdrv.AT.CRYPTOGRAPHIC_LENGTH, 1024)] + pol_attr(it.get('pol')))
+    if k == 'derive':
+        dp = cattrs.DerivationParameters(
+            cryptographic_parameters=cattrs.CryptographicParameters(hashing_algorithm=E.HashingAlgorithm.SHA_256))
+        return kdrv.derive_key(it['uids'], params=dp,
+                               attrs=kdrv.sym_attrs(E.CryptographicAlgorithm.AES, 128, MASK) + pol_attr(it.get('pol')),
+                               otype=(OT.CERTIFICATE if it.get('prefail') else OT.SYMMETRIC_KEY))
+    if k == 'locate':
+        return kdrv.locate([kdrv.attr(kdrv.AT.OBJECT_TYPE, OT[it['type']])] if it.get('type') else [])
+    if k == 'get':
+        wrap = None
+        if it.get('wrap') is not None:
+            wrap = cobjects.KeyWrappingSpecification(
+                wrapping_method=E.WrappingMethod.ENCRYPT,
+                encryption_key_information=cobjects.EncryptionKeyInformation(
+                    unique_identifier=it['wrap'],
+                    cryptographic_parameters=cattrs.CryptographicParameters(block_cipher_mode=E.BlockCipherMode.NIST_KEY_WRAP)),
+                encoding_option=E.EncodingOption.NO_ENCODING)
+        return kdrv.get(uid, wrap=wrap,
+                        compression=(E.KeyCompressionType.EC_PUBLIC_KEY_TYPE_UNCOMPRESSED if it.get('prefail') else None))
+    if k == 'get_attributes':
+        return kdrv.get_attributes(uid)
+    if k == 'get_attribute_list':
+        return kdrv.get_attribute_list(uid)
+    if k == 'activate':
+        return kdrv.activate(uid)
+    if k == 'revoke':
+        return kdrv.revoke(uid, code=(E.RevocationReasonCode.KEY_COMPROMISE if it.get('compromise') else E.RevocationReasonCode.CESSATION_OF_OPERATION))
+    if k == 'destroy':
+        return kdrv.destroy(uid)
+    cbc = kdrv.crypto_params(block_cipher_mode=E.BlockCipherMode.CBC, padding_method=E.PaddingMethod.PKCS5,
+                             cryptographic_algorithm=E.CryptographicAlgorithm.AES)
+    if k == 'encrypt':
+        return kdrv.encrypt(uid, cbc, b'sixteen byte msg', iv=b'\0' * 16)
+    if k == 'decrypt':
+        return kdrv.decrypt(uid, cbc, b'\x11' * 32, iv=b'\0' * 16)
+    rsa = kdrv.crypto_params(padding_method=E.PaddingMethod.PSS, hashing_algorithm=E.HashingAlgorithm.SHA_256,
+                             cryptographic_algorithm=E.CryptographicAlgorithm.RSA)
+    if k == 'sign':
+        return kdrv.sign(uid, rsa, b'data')
+    if k == 'signature_verify':
+        return kdrv.signature_verify(uid, rsa, b'data', b'\x01' * 128)
+    if k == 'mac':
+        return (OP.MAC, payloads.MACRequestPayload(
+            unique_identifier=(cattrs.UniqueIdentifier(uid) if uid is not None else None),
+            cryptographic_parameters=kdrv.crypto_params(cryptographic_algorithm=E.CryptographicAlgorithm.HMAC_SHA256),
+            data=cobjects.Data(b'data')))
+    if k == 'modify_attribute':
+        if v2:
+            return kdrv.modify_attribute_v2(uid, kdrv.attr_value('SENSITIVE', bool(it.get('flag'))))
+        return kdrv.modify_attribute_v1(uid, kdrv.attr(kdrv.AT.NAME, kdrv.name_value('n%d' % it.get('n', 0)), 0))
+    if k == 'delete_attribute':
+        return kdrv.delete_attribute_v1(uid, 'Name', 0)
+    if k == 'set_attribute':
+        return kdrv.set_attribute(uid, kdrv.attr_value('SENSITIVE', bool(it.get('flag'))))
+    raise KeyError(k)
+
+
+def rows_of(dump):
+    """{uid text: (object type value, owner, policy name)}"""
+    return {str(r['uid']): (r['object_type'], r['owner'], r['operation_policy_name']) for r in dump.get('managed_objects', [])}
+
+
+def c_obj(u, row):
+    return '{| o_uid := %s; o_type := %s; o_owner := %s; o_pol := %s |}' % (cp.string(u), cp.z(row[0]), c_user(row[1]), cp.string(row[2]))
+
+
+def c_request(it, obs_ok, new, match):
+    return ('{| r_op := %s; r_uid := %s; r_uids := %s; r_wrap := %s; r_pre_ok := %s; r_post_ok := %s; r_match := %s; r_new := %s |}' % (
+        cp.z(KIND_OP[it['k']].value), cp.option(it.get('uid'), cp.string), cp.lst(it.get('uids', []), cp.string),
+        cp.option(it.get('wrap'), cp.string), cp.boolean(not it.get('prefail')), cp.boolean(obs_ok),
+        cp.option(match, lambda l: cp.lst(l, cp.string)),
+        cp.lst(new, lambda n: '(%s, %s, %s)' % (cp.string(n[0]), cp.z(n[1]), cp.string(n[2])))))
+
+
+def new_objects(it, resp):
+    """(uid, type value, policy name) of the objects a successful creator reports"""
+    p = resp['payload'] or {}
+    pol = it.get('pol') or 'default'
+    k = it['k']
+    if k == 'create' or k == 'derive':
+        return [(str(p['unique_identifier']), OT.SYMMETRIC_KEY.value, pol)]
+    if k == 'register':
+        return [(str(p['unique_identifier']), OT[it['type']].value, pol)]
+    if k == 'create_key_pair':
+        return [(str(p['public_key_unique_identifier']), OT.PUBLIC_KEY.value, pol),
+                (str(p['private_key_unique_identifier']), OT.PRIVATE_KEY.value, pol)]
+    return []
+
+
+def item_ids(it, resp):
+    p = resp['payload'] or {}
+    if it['k'] == 'locate':
+        return [str(u) for u in (p.get('unique_identifiers') or [])]
+    return [n[0] for n in new_objects(it, resp)]
+
+
+# ---------------------------------------------------------------------------- the direct oracle on one request
+def hist_signature(P, user, groups, row, op, extra):
+    sig = {'class': 'history'}
+    if groups is not None and '' in groups and row is not None and granted_spec(P, row[2], user, None, row[1], OT(row[0]), op):
+        sig = {'class': 'empty-group-name'}       # explained by: "" treated as no group information -> preset
+    sig.update(extra)
+    return sig
+
+
+def oracle_request(ctx, eng, P, step, resp, rows0, dump0, dump1, notfound_tpl, report):
+    """Evaluate the property on one processed request.  `report(sig, detail, what)` records a violation."""
+    user, groups = step['user'], step['groups']
+    rows = dict(rows0)
+    ph = None
+    items = step['items']
+    single = len(items) == 1
+    any_refused_or_ungranted = False
+    for it, r in zip(items, resp['items']):
+        k = it['k']
+        ok = r['status'] == 'SUCCESS'
+        targets = []
+        if k in ADDR_KINDS:
+            u = it.get('uid') if it.get('uid') else ph
+            targets.append(('primary', u, REQUIRED_OP[k]))
+            if k == 'get' and it.get('wrap') is not None:
+                targets.append(('wrap-key', it['wrap'], REQUIRED_OP['wrap-key']))
+        elif k == 'derive':
+            targets += [('derive-base', u, REQUIRED_OP['derive-base']) for u in it['uids']]
+        reached = True                    # every earlier target exists and is granted
+        for role, u, op in targets:
+            row = rows.get(u) if u is not None else None
+            if row is None:
+                break                     # not found: the handler stops here
+            if granted_spec(P, row[2], user, groups, row[1], OT(row[0]), op):
+                continue
+            any_refused_or_ungranted = True
+            where = {'identity': [user, groups], 'item': it, 'role': role, 'object': {'uid': u, 'type': OT(row[0]).name, 'owner': row[1], 'policy': row[2]},
+                     'needs': op.name, 'answer': {k2: r[k2] for k2 in ('status', 'reason', 'message')}}
+            sig = lambda x: hist_signature(P, user, groups, row, op, dict(kind=k, role=role, fails=x))
+            if it.get('prefail'):
+                if ok:
+                    report(sig('success'), where, '%s took effect on / disclosed object %s without a grant of %s' % (k, u, op.name))
+                break
+            if ok:
+                report(sig('success'), where, '%s succeeded for %r on object %s (%s, owner %s, policy %s) without a grant of %s' % (
+                    k, (user, groups), u, OT(row[0]).name, row[1], row[2], op.name))
+            elif reached and role in ('primary', 'derive-base'):
+                want = notfound_tpl.replace(NEVER, u)
+                if r['reason'] != 'PERMISSION_DENIED' or r['message'] != want or r['payload'] is not None:
+                    report(sig('answer'), dict(where, expected={'reason': 'PERMISSION_DENIED', 'message': want}),
+                           'denied %s on object %s is not answered with the permission error carrying the not-found text' % (k, u))
+            elif reached and role == 'wrap-key' and single:
+                # the answer must be the one for a wrapping key that does not exist
+                ref = eng.request([build_item(dict(it, wrap=NEVER), tuple(step['version']))], version=tuple(step['version']),
+                                  user=user, groups=groups)['items'][0]
+                if (r['status'], r['reason'], r['message'], r['payload']) != (ref['status'], ref['reason'], ref['message'], ref['payload']):
+                    report(sig('answer'), dict(where, expected={k2: ref[k2] for k2 in ('status', 'reason', 'message')}),
+                           'Get with an ungranted wrapping key %s is answered differently from a wrapping key that does not exist' % u)
+            break
+        # Locate lists only what the requester may locate
+        if k == 'locate' and ok:
+            for u in item_ids(it, r):
+                row = rows.get(u)
+                if row is None or not granted_spec(P, row[2], user, groups, row[1], OT(row[0]), OP.LOCATE):
+                    report(hist_signature(P, user, groups, row, OP.LOCATE, dict(kind='locate', role='listed', fails='listed')),
+                           {'identity': [user, groups], 'item': it, 'listed': u, 'row': row},
+                           'Locate lists object %s which %r may not locate' % (u, (user, groups)))
+        # a refusal with the access-control text changes nothing (checked on the whole database below)
+        if not ok and r['reason'] == 'PERMISSION_DENIED' and r['message'].startswith(notfound_tpl.split(NEVER)[0]):
+            any_refused_or_ungranted = True
+        # track the store and the ID placeholder the way the protocol defines them
+        if ok:
+            for (nu, nt, npol) in new_objects(it, r):
+                rows[nu] = (nt, user, npol)
+                ph = nu
+            if k == 'destroy':
+                rows.pop(it.get('uid') if it.get('uid') else ph, None)
+    # a request all of whose items failed, one of them for lack of a grant, leaves the database untouched
+    if any_refused_or_ungranted and all(r['status'] != 'SUCCESS' for r in resp['items']) and dump0 != dump1:
+        report({'class': 'history', 'fails': 'store-changed'}, {'identity': [user, groups], 'items': items},
+               'a refused request changed the database')
+    # the access-control columns of surviving rows never change; new rows belong to the requester
+    rows1 = rows_of(dump1)
+    for u, row in rows1.items():
+        if u in rows0:
+            if rows0[u] != row:
+                report({'class': 'history', 'fails': 'columns-changed'}, {'uid': u, 'before': rows0[u], 'after': row, 'items': items},
+                       'type/owner/policy of object %s changed from %r to %r' % (u, rows0[u], row))
+        elif row[1] != user:
+            report({'class': 'history', 'fails': 'owner-not-creator'}, {'uid': u, 'row': row, 'identity': [user, groups]},
+                   'object %s created by %r has owner %r' % (u, user, row[1]))
+
+
+# ---------------------------------------------------------------------------- running a history
+def run_history(ctx, P, steps, want_case=True, count=False):
+    """Run `steps` on a fresh engine.  -> (coq case | None, violations [(sig, detail, what, step index)], observed log)"""
+    eng = kdrv.Engine(policies=copy.deepcopy(P), workdir=ctx.work)
+    viol, hsteps, log = [], [], []
+    try:
+        ref = eng.request([kdrv.get(NEVER)])['items'][0]
+        notfound_tpl = ref['message']
+        if ref['reason'] != 'ITEM_NOT_FOUND' or NEVER not in (notfound_tpl or ''):
+            raise RuntimeError('unexpected answer for an identifier that does not exist: %r' % ref)
+        dump0 = eng.dump()
+        for si, step in enumerate(steps):
+            rows0 = rows_of(dump0)
+            version = tuple(step['version'])
+            items = [build_item(it, version) for it in step['items']]
+            resp = eng.request(items, version=version, user=step['user'], groups=step['groups'],
+                               batch_option=(E.BatchErrorContinuationOption.CONTINUE if step.get('cont') else None))
+            if resp['error'] is not None:
+                raise RuntimeError('request-level error in a generated history: %r' % resp['error'])
+            dump1 = eng.dump()
+            oracle_request(ctx, eng, P, step, resp, rows0, dump0, dump1, notfound_tpl,
+                           lambda sig, detail, what: viol.append((sig, detail, what, si)))
+            log.append([{k2: r[k2] for k2 in ('op', 'status', 'reason', 'message')} for r in resp['items']])
+            if want_case or count:
+                rows_run = dict(rows0)
+                c_items, c_obs = [], []
+                for k, it in enumerate(step['items']):
+                    r = resp['items'][k] if k < len(resp['items']) else None
+                    ok = r is not None and r['status'] == 'SUCCESS'
+                    new = new_objects(it, r) if ok else []
+                    match = None
+                    if it['k'] == 'locate' and it.get('type'):
+                        match = sorted(u for u, row in rows_run.items() if row[0] == OT[it['type']].value)
+                    for n in new:
+                        rows_run[n[0]] = (n[1], step['user'], n[2])
+                    c_items.append(c_request(it, ok, new, match))
+                    if r is not None:
+                        c_obs.append('{| ob_ok := %s; ob_reason := %s; ob_msg := %s; ob_ids := %s |}' % (
+                            cp.boolean(ok), cp.string(r['reason'] or ''), cp.string(r['message'] or ''),
+                            cp.lst(item_ids(it, r) if ok else [], cp.string)))
+                        if count:
+                            cls = ('success' if ok else 'denied' if (r['reason'] == 'PERMISSION_DENIED' and r['message'].startswith(notfound_tpl.split(NEVER)[0]))
+                                   else 'not-found' if (r['reason'] == 'ITEM_NOT_FOUND' and r['message'].startswith(notfound_tpl.split(NEVER)[0]))
+                                   else 'wrap-key-masked' if r['message'] == 'Wrapping key does not exist.' else 'other-failure')
+                            ctx.count('history.%s.%s' % (it['k'], cls))
+                            ctx.case_seen(('h', it['k'], it.get('uid') is None, cls, step['groups'], rows0.get(it.get('uid') or '', (None, None, None))[2],
+                                           step['user'] == rows0.get(it.get('uid') or '', (None, None, None))[1]), nontrivial=True)
+                rows1 = rows_of(dump1)
+                q = '{| q_id := %s; q_cont := %s; q_items := %s |}' % (c_identity(step['user'], step['groups']), cp.boolean(bool(step.get('cont'))),
+                                                                        '[' + '; '.join(c_items) + ']')
+                hsteps.append('(%s, [%s], [%s])' % (q, '; '.join(c_obs),
+                                                    '; '.join(c_obj(u, rows1[u]) for u in sorted(rows1, key=int))))
+            dump0 = dump1
+    finally:
+        eng.close()
+    case = '(%s, [\n   %s])' % (c_policies(P), ';\n   '.join(hsteps)) if want_case else None
+    return case, viol, log
+
+
+# ---------------------------------------------------------------------------- generating histories
+def gen_history_live(ctx, rng, P, n_steps):
+    """Generate a history step by step against a scratch engine so that identifiers aim at live objects."""
+    eng = kdrv.Engine(policies=copy.deepcopy(P), workdir=ctx.work)
+    steps = []
+    gone = [NEVER]
+    try:
+        for si in range(n_steps):
+            rows = rows_of(eng.dump())
+            known = sorted(rows, key=int)
+
+            def pick_uid():
+                x = rng.random()
+                if known and x < 0.84:
+                    return rng.choice(known)
+                if x < 0.92:
+                    return rng.choice(gone)
+                return None
+            user = rng.choice(USERS)
+            groups = rng.choice(GROUP_MENU)
+            if known and rng.random() < 0.35:
+                # aim at the owner of a random object half of the time so that owner-only grants are exercised
+                user = rows[rng.choice(known)][1] or user
+            version = (1, 2)
+            items = []
+            x = rng.random()
+            if si < 4 or x < 0.18:
+                y = rng.random()
+                pol = rng.choice(POLICY_NAMES)
+                if y < 0.45:
+                    items.append({'k': 'create', 'pol': pol})
+                elif y < 0.96:
+                    items.append({'k': 'register', 'type': rng.choice(TYPES).name, 'pol': pol})
+                else:
+                    items.append({'k': 'create_key_pair', 'pol': pol})
+                if rng.random() < 0.35:
+                    items.append({'k': rng.choice(ADDR_KINDS[:6]), 'uid': None})
+            elif x < 0.28:
+                items.append({'k': 'locate', 'type': rng.choice([None, None, 'SYMMETRIC_KEY', 'CERTIFICATE', 'PUBLIC_KEY'])})
+            elif x < 0.35:
+                it = {'k': 'derive', 'uids': [pick_uid() or NEVER for _ in range(rng.choice([1, 1, 2]))], 'pol': rng.choice(POLICY_NAMES)}
+                if rng.random() < 0.1:
+                    it['prefail'] = True
+                items.append(it)
+            elif x < 0.42:
+                items.append({'k': 'get', 'uid': pick_uid(), 'wrap': pick_uid() or NEVER})
+            elif x < 0.45:
+                items.append({'k': 'get', 'uid': pick_uid(), 'prefail': True})
+            elif x < 0.52:
+                version = (2, 0)
+                items.append({'k': rng.choice(['set_attribute', 'modify_attribute']), 'uid': pick_uid(), 'flag': rng.random() < 0.5})
+                if rng.random() < 0.3:
+                    k = rng.choice(['get', 'get_attributes', 'destroy', 'locate'])
+                    items.append({'k': 'locate', 'type': None} if k == 'locate' else {'k': k, 'uid': pick_uid()})
+            else:
+                for _ in range(rng.choice([1, 1, 1, 1, 2, 3])):
+                    k = rng.choice(ADDR_KINDS[:-1])
+                    it = {'k': k, 'uid': pick_uid()}
+                    if k == 'revoke':
+                        it['compromise'] = rng.random() < 0.5
+                    if k == 'modify_attribute':
+                        it['n'] = rng.randrange(3)
+                    items.append(it)
+            step = {'user': user, 'groups': groups, 'version': list(version),
+                    'cont': (len(items) > 1 and rng.random() < 0.4), 'items': items}
+            steps.append(step)
+            resp = eng.request([build_item(it, version) for it in items], version=version, user=user, groups=groups,
+                               batch_option=(E.BatchErrorContinuationOption.CONTINUE if step['cont'] else None))
+            for it, r in zip(items, resp['items']):
+                if it['k'] == 'destroy' and r['status'] == 'SUCCESS' and it.get('uid'):
+                    gone.append(it['uid'])
+    finally:
+        eng.close()
+    return steps
+
+
+# the classic situations, always run first
+def corpus():
+    own = {'user': 'alice', 'groups': None, 'version': [1, 2], 'cont': False}
+    def st(user, groups, items, version=(1, 2), cont=False):
+        return {'user': user, 'groups': groups, 'version': list(version), 'cont': cont, 'items': items}
+    h1 = [st('alice', None, [{'k': 'create', 'pol': None}]),
+          st('alice', None, [{'k': 'register', 'type': 'CERTIFICATE', 'pol': None}]),
+          st('alice', None, [{'k': 'create', 'pol': 'pa'}, {'k': 'activate', 'uid': None}]),
+          st('alice', None, [{'k': 'register', 'type': 'SECRET_DATA', 'pol': 'pb'}]),
+          st('alice', None, [{'k': 'create', 'pol': 'ghost'}])]
+    for user, groups in (('bob', None), ('bob', ['G1']), ('bob', ['G1', 'G2']), ('alice', ['G1']), ('bob', []), ('bob', ['']), ('carol', ['GX', 'G2'])):
+        for k in ADDR_KINDS[:-1]:
+            for u in ('1', '2', '3', '4', '5'):
+                if k in ('destroy', 'revoke', 'activate') and user == 'alice':
+                    continue
+                h1.append(st(user, groups, [{'k': k, 'uid': u}]))
+        h1.append(st(user, groups, [{'k': 'locate', 'type': None}]))
+        h1.append(st(user, groups, [{'k': 'get', 'uid': '2', 'wrap': '3'}]))
+        h1.append(st(user, groups, [{'k': 'get', 'uid': '2', 'wrap': '1'}]))
+        h1.append(st(user, groups, [{'k': 'derive', 'uids': ['3', '1'], 'pol': None}]))
+        h1.append(st(user, groups, [{'k': 'derive', 'uids': ['1'], 'pol': 'pc'}]))
+        h1.append(st(user, groups, [{'k': 'set_attribute', 'uid': '3', 'flag': True}], version=(2, 0)))
+        h1.append(st(user, groups, [{'k': 'get', 'uid': None}]))
+        h1.append(st(user, groups, [{'k': 'get', 'uid': '1'}, {'k': 'get', 'uid': '2'}, {'k': 'get', 'uid': '3'}], cont=True))
+        h1.append(st(user, groups, [{'k': 'get', 'uid': '1'}, {'k': 'get', 'uid': '2'}], cont=False))
+    h1.append(st('alice', None, [{'k': 'destroy', 'uid': '1'}]))
+    h1.append(st('bob', None, [{'k': 'get', 'uid': '1'}]))
+    h1.append(st('bob', None, [{'k': 'create', 'pol': None}, {'k': 'destroy', 'uid': None}]))
+    h1.append(st('alice', None, [{'k': 'locate', 'type': None}]))
+    return [h1]
+
+
+HEADER_B = ('From Coq Require Import String ZArith List Bool.\n'
+            'From PK Require Import Policy.Policy Policy.AccessTypes Policy.Access Policy.AccessCases.\n'
+            'Import ListNotations.\nOpen Scope Z_scope.\nOpen Scope string_scope.\n')
+
+
+def shrink(ctx, P, steps, sig, upto, budget=40):
+    """Greedy removal of steps while a violation with the same signature still reproduces."""
+    cur = steps[:upto + 1]
+    def fails(cand):
+        try:
+            _, v, _ = run_history(ctx, P, cand, want_case=False)
+        except Exception:
+            return False
+        return any(x[0] == sig for x in v)
+    i = len(cur) - 2
+    while i >= 0 and budget > 0:
+        cand = cur[:i] + cur[i + 1:]
+        budget -= 1
+        if fails(cand):
+            cur = cand
+        i -= 1
+    return cur
+
+
+def histories(ctx):
+    quick = ctx.tier == 'quick'
+    n_hist, n_steps = (14, 36) if quick else (70, 60)
+    rng = ctx.subrng('histories')
+    cases, metas = [], []
+    plan = []
+    Pc = random_policies(ctx.subrng('corpus-policies'))
+    for h in corpus():
+        plan.append((Pc, h, 'corpus'))
+    for k in range(n_hist):
+        P = random_policies(rng)
+        plan.append((P, gen_history_live(ctx, rng, P, n_steps), 'seeded-%d' % k))
+    reported = set()
+    for P, steps, label in plan:
+        case, viol, log = run_history(ctx, P, steps, want_case=True, count=True)
+        cases.append(case)
+        metas.append({'history': label, 'policies': plain_policies(P), 'steps': steps, 'observed': log})
+        ctx.count('history.requests', len(steps))
+        for sig, detail, what, si in viol:
+            key = json.dumps(sig, sort_keys=True, default=str)
+            if key in reported:
+                continue
+            reported.add(key)
+            known = any(f.get('status') == 'known' and all(k in sig and sig[k] == v for k, v in f['signature'].items()) for f in ctx.findings)
+            wsteps = steps[:si + 1] if known else shrink(ctx, P, steps, sig, si)
+            ctx.violation(sig, {'kind': 'history', 'policies': plain_policies(P), 'steps': wsteps, 'detail': detail,
+                                'how_to_replay': 'bin/check C03 --replay <this file>: fresh engine with these policies, the steps in order as the given identities'},
+                          what)
+    bad = ctx.run_cases('histories', HEADER_B, cases, 'check_history', shard=4,
+                        what='process_request/run of Policy/Access.v vs KmipEngine.process_request on whole histories: outcome class, reason, message, Locate ids, (uid, type, owner, policy) rows after every request')
+    for i in bad[:5]:
+        first = ctx.model_output(HEADER_B, 'first_bad (fst (%s)) empty_store (snd (%s)) 0' % (cases[i], cases[i]))
+        ctx.disagreement('histories', {'history': metas[i]['history'], 'policies': metas[i]['policies'], 'steps': metas[i]['steps'],
+                                       'observed': metas[i]['observed']}, model_says=first[:1500])
+    if metas:
+        ctx.sample({'history': metas[-1]['history'], 'first_steps': metas[-1]['steps'][:6], 'observed': metas[-1]['observed'][:6]})
+    return bad, metas
+
+
+def replay(ctx, data):
+    load_local_findings(ctx)
+    w = data.get('input') or {}
+    if w.get('kind') != 'history':
+        print('replay: the witness is a direct call, see its "how" field:', json.dumps(w, default=str)[:800])
+        eng = kdrv.Engine(workdir=ctx.work)
+        try:
+            P = policies_from_plain(w['policies'])
+            eng.engine._operation_policies = P
+            user, groups = w['identity']
+            got = eng.engine._is_allowed_by_operation_policy(w['policy_name'], (user, groups), w['owner'], OT[w['object_type']], OP[w['operation']])
+            want = granted_spec(P, w['policy_name'], user, groups, w['owner'], OT[w['object_type']], OP[w['operation']])
+            print('engine allows: %r   granted by the property text: %r' % (got, want))
+            return 1 if (got and not want) else 0
+        finally:
+            eng.close()
+    P = policies_from_plain(w['policies'])
+    _, viol, log = run_history(ctx, P, w['steps'], want_case=False)
+    for sig, detail, what, si in viol:
+        print('step %d: %s' % (si, what))
+        print('   ', json.dumps(detail, default=str)[:600])
+    print('REPRODUCED' if viol else 'not reproduced')
+    return 1 if viol else 0
+
+
 def load_local_findings(ctx):
     """findings.d/C03.json is merged into known_findings.json by the integrator; until then read it directly."""
     p = VERIF / 'findings.d' / 'C03.json'
@@ -259,12 +799,20 @@ def run(ctx):
     load_local_findings(ctx)
     ctx.cov['rule'] = ('(a) every cell of the abstract decision space: 9 preset shapes x 39 groups shapes (+ missing policy) x '
                        'requester {owner, other, anonymous} x 11 group lists, and the built-in policies over every object type x operation; '
-                       '(b) seeded engine histories. A case is distinct by (policy shape, requester, groups) resp. by canonical history.')
-    ok_regen = ctx.regen(only=['policies'])
-    ctx.prove('props/C03.v')
+                       '(b) a fixed corpus history (every addressing operation x 7 identities x 5 objects under default/custom/unknown policies) and '
+                       'seeded engine histories over 3 users x 9 group lists, random custom policies (preset and/or groups, missing type/operation entries), '
+                       '7 object types, 19 operations incl. wrapping key, derivation bases, ID placeholder, batches. A case is distinct by '
+                       '(policy shape, requester, groups) resp. (operation, placeholder?, outcome class, groups, policy name, requester is owner).')
+    ctx.regen(only=['policies'])
+    ctx.prove('props/C03.v', extra_targets=['theories/Policy/AccessCases.v'])
     eng = kdrv.Engine(workdir=ctx.work)
     try:
         n = decision_cases(ctx, eng)
         ctx.count('decision.policy_shapes', n)
     finally:
         eng.close()
+    histories(ctx)
+    ctx.cov['trusted_extra'] = ['translate/gen_policies.py (ast pass over engine.py, reflection of kmip.core.policy.policies; fail closed)',
+                                'harness/c03.py printers and request builders; harness/kdrv.py',
+                                'SQLite row lookup by identifier (canonical decimal identifiers only)',
+                                'post-access behaviour of handlers enters the model as the observed success flag (oracle input)']
